@@ -37,6 +37,9 @@ uint8_t yk_done[YK_NT];
 uint32_t yk_thr_sleeps[YK_NT];
 uint8_t yk_parked[YK_NT];
 static uint32_t yk_fin_ctx[YK_NT];
+static uint32_t yk_start_ctx[YK_NT];
+static uint8_t yk_started[YK_NT];
+uint32_t yk_ctx_of_start(uint32_t i) { return i < YK_NT ? yk_start_ctx[i] : 0; }
 typedef int (*yk_thr_fn)(void);
 static yk_thr_fn yk_thr[YK_NT];
 void yk_thread(uint32_t i, void* fn) { if (i < YK_NT) yk_thr[i] = (yk_thr_fn)fn; }
@@ -48,6 +51,7 @@ static void yk_one_context(uint32_t t, uint32_t allow)
 {
     yk_cur = (int32_t)t;
     yk_hooks_in_ctx = 0;
+    if (!yk_started[t]) { yk_started[t] = 1; yk_start_ctx[t] = yk_nctx; }
     int r = 0;
     /* explicit dispatch: with a constant template mask symex drops the threads that cannot run here */
     if (t == 0 && (allow & 1u)) r = yk_thr[0]();
